@@ -35,7 +35,11 @@ def make_grid(lengths, order=("b", "a", "c", "e", "d", "z"), as_array=()):
     names = [n for n in order if n in lengths]
     for n in names:
         vals = VALUES[n][:lengths[n]]
-        d[n] = np.array(vals) if n in as_array else list(vals)
+        dt = [a.split(":")[1] for a in as_array if ":" in a and a.split(":")[0] == n]
+        if dt:
+            d[n] = np.array(vals, dtype=dt[0])        # e.g. "d:float32": a single-precision array
+        else:
+            d[n] = np.array(vals) if n in as_array else list(vals)
     return d, names
 
 
